@@ -94,7 +94,14 @@ func (m *bsim) moreOutputs(ctx context.Context, moduleSet bufmodule.ModuleSet, i
 	if err != nil {
 		return fmt.Errorf("lint client: %w", err)
 	}
-	lintOut, err := renderAnnotations(client.Lint(ctx, bufconfig.DefaultLintConfigV2, image))
+	// rule ids and categories in the order this execution lists them, plus ignore paths
+	lintUse, lintExcept := m.ruleLists()
+	lintCheck, err := bufconfig.NewEnabledCheckConfig(bufconfig.FileVersionV2, lintUse, lintExcept, nil, nil, false)
+	if err != nil {
+		return fmt.Errorf("lint config: %w", err)
+	}
+	lintConfig := bufconfig.NewLintConfig(lintCheck, "", false, false, false, "", true)
+	lintOut, err := renderAnnotations(client.Lint(ctx, lintConfig, image))
 	if err != nil {
 		return fmt.Errorf("lint: %w", err)
 	}
@@ -109,7 +116,12 @@ func (m *bsim) moreOutputs(ctx context.Context, moduleSet bufmodule.ModuleSet, i
 	if err != nil {
 		return fmt.Errorf("against: %w", err)
 	}
-	breakingOut, err := renderAnnotations(client.Breaking(ctx, bufconfig.DefaultBreakingConfigV2, image, against))
+	breakingUse := m.permuted("breakuse", []string{"FILE", "WIRE_JSON", "PACKAGE"})
+	breakingCheck, err := bufconfig.NewEnabledCheckConfig(bufconfig.FileVersionV2, breakingUse, nil, nil, nil, false)
+	if err != nil {
+		return fmt.Errorf("breaking config: %w", err)
+	}
+	breakingOut, err := renderAnnotations(client.Breaking(ctx, bufconfig.NewBreakingConfig(breakingCheck, false), image, against))
 	if err != nil {
 		return fmt.Errorf("breaking: %w", err)
 	}
@@ -137,4 +149,22 @@ func moduleLabel(mod bufmodule.Module) string {
 		return fn.String()
 	}
 	return mod.OpaqueID()
+}
+
+// permuted returns xs in the listing order of the current execution (canonical for the baseline).
+func (m *bsim) permuted(label string, xs []string) []string {
+	out := append([]string(nil), xs...)
+	if !m.permuteLists {
+		return out
+	}
+	perm := m.tp.Perm(label, len(out))
+	for i, j := range perm {
+		out[i] = xs[j]
+	}
+	return out
+}
+
+// ruleLists returns the lint use / except lists of this case in this execution's listing order.
+func (m *bsim) ruleLists() ([]string, []string) {
+	return m.permuted("lintuse", m.lintUse), m.permuted("lintexcept", m.lintExcept)
 }
